@@ -32,6 +32,33 @@ def parseDevices : Nat → List String → List Device
       :: parseDevices n ips.2
   | _ + 1, _ => []
 
+/-- Wire device groups: `id linked human tag valid n ip₁ … ipₙ`. -/
+def parseWireDevices : Nat → List String → List WireDevice × List String
+  | 0, ts => ([], ts)
+  | n + 1, id :: linked :: human :: tag :: valid :: k :: ts =>
+    let ips := takeNats (nat! k) ts
+    let r := parseWireDevices n ips.2
+    ({ dev := { id := nat! id, linked := nat! linked, dedicated := ips.1, human := nat! human, tag := nat! tag },
+       valid := bool! valid } :: r.1, r.2)
+  | _ + 1, _ => ([], [])
+
+/-- Wire profile groups: `pid auto deleted tag ok nd device…`. -/
+def parseWireProfiles : Nat → List String → List WireProfile
+  | 0, _ => []
+  | n + 1, pid :: auto :: del :: tag :: ok :: nd :: ts =>
+    let ds := parseWireDevices (nat! nd) ts
+    { prof := { id := nat! pid, devIds := [], auto := bool! auto, deleted := bool! del, tag := nat! tag },
+      devs := ds.1, ok := bool! ok } :: parseWireProfiles n ds.2
+  | _ + 1, _ => []
+
+def showNats (l : List Nat) : String := " ".intercalate (toString l.length :: l.map toString)
+
+/-- A response in the format of the `sync` line (after kind and time). -/
+def showResp (r : List Profile × List Device) : String :=
+  " ".intercalate ([toString r.1.length, toString r.2.length] ++
+    r.1.map (fun p => s!"{p.id} {showB p.auto} {showB p.deleted} {p.tag} {showNats p.devIds}") ++
+    r.2.map (fun d => s!"{d.id} {d.linked} {d.human} {d.tag} {showNats d.dedicated}"))
+
 def showOpt : Option Nat → String
   | some v => toString v
   | none => "-"
@@ -59,6 +86,11 @@ def step (s : St) : List String → St × String
     let ps := parseProfiles (nat! np) rest
     let ds := parseDevices (nat! nd) ps.2
     (applySync s (bool! full) (nat! t) ps.1 ds, s!"ok {reqTime s (bool! full)}")
+  | "syncns" :: t :: np :: nd :: rest =>
+    -- a full Refresh whose cache store failed (Refresh returns the error after applying the data)
+    let ps := parseProfiles (nat! np) rest
+    let ds := parseDevices (nat! nd) ps.2
+    (Agd.ProfileDB.step s (.syncNS (nat! t) ps.1 ds), s!"ok {reqTime s true}")
   | ["fail", full] =>
     -- a Refresh whose storage request failed
     (stepEv s (.failed (bool! full)), s!"ok {reqTime s (bool! full)}")
@@ -77,6 +109,31 @@ def step (s : St) : List String → St × String
     let b := Agd.ProfileCache.authFromPb (Agd.ProfileCache.authToPb a)
     (s, s!"{showB b.enabled} {showB b.dohOnly} " ++
         (match b.pw with | .allow => "0" | .bcrypt h => toString h | .nilHash => "nil"))
+  | "wire" :: np :: rest =>
+    -- backendpb.ProfileStorage.Profiles: the response made of a stream of wire profiles
+    (s, showResp (respOfWire (parseWireProfiles (nat! np) rest)))
+  | ["bpauth", present, adoh, apw] =>
+    -- backendpb: authentication settings as converted (present = 0: absent on the wire)
+    let w : Option Agd.ProfileCache.PbAuth := if present == "0" then none else
+      some { dohOnly := bool! adoh, pw := if apw == "0" then .unset else .bcrypt (nat! apw) }
+    let b := Agd.ProfileCache.backendAuth w
+    (s, s!"{showB b.enabled} {showB b.dohOnly} " ++
+        (match b.pw with | .allow => "0" | .bcrypt h => toString h | .nilHash => "nil"))
+  | ["bprate", mode] =>
+    -- backendpb: rate-limit settings absent (0), disabled (1), enabled (2); then through the cache
+    let w : Option Agd.ProfileCache.WireRate := if mode == "0" then none else
+      some { enabled := mode == "2", rps := 5, cidr := [] }
+    let r := Agd.ProfileCache.ratelimiterFromPb (Agd.ProfileCache.ratelimiterToPb (Agd.ProfileCache.backendRate w))
+    (s, (match Agd.ProfileCache.backendRate w with | .global => "global" | .default _ _ => "default") ++ " " ++
+        (match r with | .global => "global" | .default _ _ => "default"))
+  | ["bpaccess", mode] =>
+    let w : Option Agd.ProfileCache.WireAccess := if mode == "0" then none else
+      some { enabled := mode == "2", cfg := ⟨[], [], [], [], []⟩ }
+    (s, match Agd.ProfileCache.backendAccess w with | none => "empty" | some _ => "default")
+  | ["rtrate", _] =>
+    -- a custom limiter built with any `Enabled` (which `NewDefaultRatelimiter` ignores) through the cache
+    (s, match Agd.ProfileCache.ratelimiterFromPb (Agd.ProfileCache.ratelimiterToPb (.default [] 1)) with
+      | .global => "global" | .default _ _ => "default")
   | ["load", v, np, nd] =>
     (s, match Agd.ProfileCache.loadDecision (nat! v) (nat! np) (nat! nd) with
       | .loaded => "loaded" | .versionIgnored => "version" | .emptyIgnored => "empty")
